@@ -47,25 +47,28 @@ fn with_values<R>(m: &'static Metadata<'static>, vals: &[(String, V)], f: impl F
     }
 }
 
+/// `D target span fields level` as a user would write the directive
+fn dir_string(d: &[&str]) -> String {
+    assert_eq!(d[0], "D");
+    let mut s = String::new();
+    if d[1] != "-" { s.push_str(d[1]); }
+    if d[2] != "-" || d[3] != "-" {
+        s.push('[');
+        if d[2] != "-" { s.push_str(d[2]); }
+        if d[3] != "-" { s.push('{'); s.push_str(&d[3].replace('+', ",")); s.push('}'); }
+        s.push(']');
+    }
+    let lvl = LEVELS[d[4].parse::<usize>().unwrap()];
+    if s.is_empty() { s.push_str(lvl); } else { s.push('='); s.push_str(lvl); }
+    s
+}
+
 fn run_case(toks: &[&str]) -> String {
     let sep = toks.iter().position(|t| *t == ";;").expect(";;");
     // the directive string, as a user would write it
     let mut dirs: Vec<String> = Vec::new();
     let via_add = toks[0] == "A";
-    for d in toks[1..sep].chunks(5) {
-        assert_eq!(d[0], "D");
-        let mut s = String::new();
-        if d[1] != "-" { s.push_str(d[1]); }
-        if d[2] != "-" || d[3] != "-" {
-            s.push('[');
-            if d[2] != "-" { s.push_str(d[2]); }
-            if d[3] != "-" { s.push('{'); s.push_str(&d[3].replace('+', ",")); s.push('}'); }
-            s.push(']');
-        }
-        let lvl = LEVELS[d[4].parse::<usize>().unwrap()];
-        if s.is_empty() { s.push_str(lvl); } else { s.push('='); s.push_str(lvl); }
-        dirs.push(s);
-    }
+    for d in toks[1..sep].chunks(5) { dirs.push(dir_string(d)); }
     // `P`: the whole comma-separated string at once; `A`: an empty filter, then `add_directive` for each directive
     let filter = if via_add {
         let mut f = EnvFilter::builder().parse("").expect("empty filter");
@@ -74,14 +77,33 @@ fn run_case(toks: &[&str]) -> String {
         }
         f
     } else {
-        match EnvFilter::builder().parse(dirs.join(",")) { Ok(f) => f, Err(e) => return format!("PARSE-ERROR {}", e).replace(' ', "_") }
+        // through the builder, or through `EnvFilter::new` (which carries a default directive, `error`, for strings that yield no
+        // directive at all — never the case here: the constructors must agree)
+        match EnvFilter::builder().parse(dirs.join(",")) {
+            Ok(f) => if toks.len() % 2 == 0 { f } else { EnvFilter::new(dirs.join(",")) },
+            Err(e) => return format!("PARSE-ERROR {}", e).replace(' ', "_"),
+        }
     };
     // the filter as a global layer, as the per-layer filter of the recording layer, or as the right operand of an `or` whose left
     // operand lets nothing through (a function of the case: all three must decide alike)
     // (direct questions to the filter — `qi` — are asked of the global-layer deployment: a per-layer filter answers through
     //  the registry's bookkeeping)
-    let deploy = if toks.iter().any(|t| *t == "qi") { 0 } else { toks.len() % 3 };
+    // a case with `ad` (a directive added to the running filter) puts the filter behind a reload handle, as a global layer or
+    // as a per-layer filter
+    let has_ad = toks.iter().any(|t| *t == "ad");
+    let deploy = if has_ad { 3 + toks.len() % 2 } else if toks.iter().any(|t| *t == "qi") { 0 } else { toks.len() % 3 };
+    let mut handle: Option<tracing_subscriber::reload::Handle<EnvFilter>> = None;
     let d = match deploy {
+        3 => {
+            let (l, h) = tracing_subscriber::reload::Subscriber::new(filter);
+            handle = Some(h);
+            Dispatch::new(tracing_subscriber::registry().with(Rec).with(l))
+        }
+        4 => {
+            let (l, h) = tracing_subscriber::reload::Subscriber::new(filter);
+            handle = Some(h);
+            Dispatch::new(tracing_subscriber::registry().with(Rec.with_filter(l)))
+        }
         0 => Dispatch::new(tracing_subscriber::registry().with(Rec).with(filter)),
         1 => Dispatch::new(tracing_subscriber::registry().with(Rec.with_filter(filter))),
         _ => {
@@ -132,6 +154,19 @@ fn run_case(toks: &[&str]) -> String {
                     let i = d.register_callsite(m);
                     let q = d.enabled(m);
                     outs.push(format!("i:{},q:{}", if i.is_always() { "a" } else if i.is_never() { "n" } else { "s" }, if q { 1 } else { 0 }));
+                }
+                "ad" => {
+                    // `Handle::modify` extending the running filter in place; the interest cache is rebuilt afterwards
+                    // (`modify` does that for the registered callsites; for the synthetic ones of this executor: ask again)
+                    let dir = dir_string(&op[1..6]);
+                    match (dir.parse::<tracing_subscriber::filter::Directive>(), handle.as_ref()) {
+                        (Ok(dv), Some(h)) => {
+                            let r = h.modify(|f| *f = std::mem::take(f).add_directive(dv));
+                            interest.clear();
+                            outs.push(if r.is_ok() { "-".into() } else { "modify-error".into() });
+                        }
+                        _ => outs.push("bad-op".into()),
+                    }
                 }
                 "rc" => {
                     let k: usize = op[1].parse().unwrap();
